@@ -194,6 +194,9 @@ func (tk *task) newHost(chGlobals map[string]lua.LValue, shared map[string]*lua.
 		L.SetGlobal(k, L.NewFunctionFromProto(p))
 	}
 	h.ExtraStep = func(L *lua.LState) {
+		if tk.mb.aborted() {
+			panic("multistate: run aborted by the scheduler (drain)")
+		}
 		tk.budget--
 		if tk.budget <= 0 {
 			tk.budget = tk.mb.park(pendingOp{kind: parkStep})
@@ -794,6 +797,15 @@ func (sc *sched) enabled(cancelMode bool) []choice {
 func (sc *sched) loop(t *core.Tape, fail func(string, string, ...interface{}) *core.Violation, cancelMode bool) *core.Violation {
 	budgets := []int64{1, 2, 3, 7, 25, 100, 400, 2000}
 	for iter := 0; iter < 5000; iter++ {
+		for _, tk := range sc.tasks {
+			if tk.kind == kRefusal && !tk.done && tk.pend.kind == parkChanPre && tk.pend.op == lua.VerifChanSelect {
+				for i := 0; i < tk.pend.ncases; i++ {
+					if tk.pend.send[i] {
+						return fail("payload-not-refused", "task %d: a select send case whose payload must be refused (function, thread, table with a metatable, userdata) reached the channel operation", tk.id)
+					}
+				}
+			}
+		}
 		en := sc.enabled(cancelMode)
 		if len(en) == 0 {
 			alldone := true
@@ -1046,9 +1058,7 @@ func (sc *sched) drain() {
 				continue
 			}
 			alive = true
-			if tk.host != nil {
-				tk.host.MaxSteps = 1 // force the run to unwind at the next instruction
-			}
+			tk.mb.setAbort() // force the run to unwind at the next instruction
 			if tk.ctx != nil {
 				tk.ctx.Fire()
 			}
